@@ -264,6 +264,7 @@ def adjust_offsets_w_sustain(
 ) -> None:
     # get all note offsets
     offs = np.fromiter((n["note_off"] for n in notes), dtype=float)
+    note_offs = offs.copy()
     first_off = np.min(offs)
     last_off = np.max(offs)
 
@@ -311,6 +312,11 @@ def adjust_offsets_w_sustain(
         sorted_sound_offs = offs[sorted_indices]
 
         adjusted_sound_offs = np.minimum(sorted_sound_offs[:-1], sorted_note_ons[1:])
+        # a re-onset before the release of the note (overlapping notes of the
+        # same pitch) must not end the note before its release
+        adjusted_sound_offs = np.maximum(
+            adjusted_sound_offs, note_offs[sorted_indices[:-1]]
+        )
 
         offs[sorted_indices[:-1]] = adjusted_sound_offs
 
